@@ -144,6 +144,15 @@ def check_bundles(rep, bundles, tier):
             continue
         foreign = irw.foreign_writes(ff, {outp})
         if foreign:
+            glob = [w for w in foreign if ir.root_kind(w["prov"].root) == "global"]
+            if glob:
+                # a Bundle operation that keeps scratch / results in static storage: its output is no longer a function of its own inputs alone (overlapping or
+                # re-entrant evaluations see each other's blocks) -- a definite defect of the direct-product clause, not an abstraction limit
+                gname = str(glob[0]["prov"].root[1])[:90]
+                rep.instance("B1", g.ctype, op + " static storage", ok=False, sample={"witness": fname, "global": gname})
+                rep.violation(Finding("B1", g.ctype, op + " static storage", "%s of %s writes static-storage data (%s): the blocks of the result pass through storage shared by every "
+                                      "evaluation of this operation, so a result can contain blocks computed from another call's tangent" % (op, g.ctype, gname), None, None, detail={"witness": fname}))
+                continue
             rep.broke("%s: write outside the output buffer: %s" % (fname, foreign[0]["instr"].text[:100]))
             continue
         if problems:
@@ -456,3 +465,9 @@ def check(rep, tier, replay=None):
     rep.unit("umbrella TU filtered BundleImpl")
     import bundlem
     bundlem.check(rep, tier, objs)
+    import dfm
+    rep.explanations.append(
+        "T1.dyn (props/dfm.py, engine M): traits::lie<RnType> -- Eigen vectors as the translation group -- is executed from the AST for a fixed-size and for a dynamic-size vector; "
+        "values and shapes of every member are compared with the additive group (Hessians n x n^2), and a constant matrix built with run-time sizes that contradict its "
+        "compile-time sizes is reported.")
+    dfm.check_rn(rep)
